@@ -50,56 +50,19 @@ func c09(c *Ctx) {
 				}
 				n++
 				key := c.name(f) + "|impl." + name
-				var acqCall *ssa.Call
-				for _, cs2 := range engine.Calls(f) {
-					if cs2.Common().StaticCallee() == acq && acq != nil && engine.InstrDominates(cs2.Instr, cs.Instr) {
-						acqCall, _ = cs2.Instr.(*ssa.Call)
+				var idArg ssa.Value
+				if len(cc.Args) > 0 {
+					idArg = cc.Args[0]
+				}
+				ok, why := serialisedBySyncRef(f, cs.Instr, idArg, name, acq, rel)
+				if !ok && f.Parent() != nil {
+					// the closure is run by a helper method that takes the per-id lock around it
+					if ok2, why2 := closureRunUnderSyncRef(c, f, idArg, name, acq, rel); ok2 {
+						ok, why = true, why2
 					}
 				}
-				if acqCall == nil {
-					R.Fail("R09.1", key, P.Pos(cs.Pos()), "the wrapped store is called without acquireSyncRef for the id: concurrent readers/writers of one id are not serialised")
-					continue
-				}
-				// same id
-				sameID := len(cc.Args) > 0 && (sameLoad(acqCall.Call.Args[1], cc.Args[0]) || sliceOfOne(cc.Args[0], acqCall.Call.Args[1]))
-				// lock mode
-				locked, mode := false, ""
-				deferUnlock, deferRelease := false, false
-				for _, in2 := range allInstrs(f) {
-					ci, ok := in2.(ssa.CallInstruction)
-					if !ok {
-						continue
-					}
-					sc := ci.Common().StaticCallee()
-					if sc == nil {
-						continue
-					}
-					if sc == rel {
-						if _, isDefer := in2.(*ssa.Defer); isDefer {
-							deferRelease = true
-						}
-					}
-					if engine.PkgPathOf(sc) != "sync" || len(ci.Common().Args) == 0 {
-						continue
-					}
-					fa, ok := ci.Common().Args[0].(*ssa.FieldAddr)
-					if !ok || fa.X != ssa.Value(acqCall) {
-						continue
-					}
-					switch sc.Name() {
-					case "Lock", "RLock":
-						if _, isDefer := in2.(*ssa.Defer); !isDefer && engine.InstrDominates(in2, cs.Instr) {
-							locked, mode = true, sc.Name()
-						}
-					case "Unlock", "RUnlock":
-						if _, isDefer := in2.(*ssa.Defer); isDefer {
-							deferUnlock = true
-						}
-					}
-				}
-				modeOK := locked && (mode == "Lock" || name == "Get")
-				R.Check(sameID && modeOK && deferUnlock && deferRelease, "R09.1", key, P.Pos(cs.Pos()), "serialised by the per-id lock ("+mode+"), released by defer",
-					fmtf("impl.%s is not properly serialised (same id: %v, lock held: %v mode %q, deferred unlock: %v, deferred release: %v): a reader can observe a half-written value", name, sameID, locked, mode, deferUnlock, deferRelease))
+				R.Check(ok, "R09.1", key, P.Pos(cs.Pos()), "serialised by the per-id lock, released by defer ("+why+")",
+					"impl."+name+" is not properly serialised: "+why+": concurrent readers/writers of one id are not serialised and a reader can observe a half-written value")
 			}
 		}
 	}
@@ -345,4 +308,151 @@ func sameLoad(a, b ssa.Value) bool {
 	la, ok1 := a.(*ssa.UnOp)
 	lb, ok2 := b.(*ssa.UnOp)
 	return ok1 && ok2 && la.X == lb.X
+}
+
+// serialisedBySyncRef: in f, instruction `at` is dominated by acquireSyncRef(<same id>) and by
+// RLock (Get) / Lock on that entry's lock; unlock and releaseSyncRef are deferred.  idVal nil
+// skips the same-id test (it is done by the caller).
+func serialisedBySyncRef(f *ssa.Function, at ssa.Instruction, idVal ssa.Value, name string, acq, rel *ssa.Function) (bool, string) {
+	var acqCall *ssa.Call
+	for _, cs2 := range engine.Calls(f) {
+		if cs2.Common().StaticCallee() == acq && acq != nil && cs2.Instr.Parent() == f && engine.InstrDominates(cs2.Instr, at) {
+			acqCall, _ = cs2.Instr.(*ssa.Call)
+		}
+	}
+	if acqCall == nil {
+		return false, "the wrapped store is called without acquireSyncRef for the id"
+	}
+	sameID := idVal == nil || sameLoad(acqCall.Call.Args[1], idVal) || sliceOfOne(idVal, acqCall.Call.Args[1])
+	locked, mode := false, ""
+	deferUnlock, deferRelease := false, false
+	for _, in2 := range allInstrs(f) {
+		ci, ok := in2.(ssa.CallInstruction)
+		if !ok {
+			continue
+		}
+		sc := ci.Common().StaticCallee()
+		if sc == nil {
+			continue
+		}
+		if sc == rel {
+			if _, isDefer := in2.(*ssa.Defer); isDefer {
+				deferRelease = true
+			}
+		}
+		if engine.PkgPathOf(sc) != "sync" || len(ci.Common().Args) == 0 {
+			continue
+		}
+		fa, ok := ci.Common().Args[0].(*ssa.FieldAddr)
+		if !ok || fa.X != ssa.Value(acqCall) {
+			continue
+		}
+		switch sc.Name() {
+		case "Lock", "RLock":
+			if _, isDefer := in2.(*ssa.Defer); !isDefer && engine.InstrDominates(in2, at) {
+				locked, mode = true, sc.Name()
+			}
+		case "Unlock", "RUnlock":
+			if _, isDefer := in2.(*ssa.Defer); isDefer {
+				deferUnlock = true
+			}
+		}
+	}
+	modeOK := locked && (mode == "Lock" || name == "Get")
+	why := fmtf("same id: %v, lock held: %v mode %q, deferred unlock: %v, deferred release: %v", sameID, locked, mode, deferUnlock, deferRelease)
+	return sameID && modeOK && deferUnlock && deferRelease, why
+}
+
+// closureRunUnderSyncRef: closure cl is handed to a WriteControlledStore method g that calls it
+// while holding the per-id lock of the id it was given, and that id is the one cl uses.
+func closureRunUnderSyncRef(c *Ctx, cl *ssa.Function, idInClosure ssa.Value, name string, acq, rel *ssa.Function) (bool, string) {
+	par := cl.Parent()
+	for _, b := range par.Blocks {
+		for _, in := range b.Instrs {
+			mc, ok := in.(*ssa.MakeClosure)
+			if !ok || mc.Fn != ssa.Value(cl) {
+				continue
+			}
+			for _, r := range *mc.Referrers() {
+				call, ok := r.(*ssa.Call)
+				if !ok {
+					return false, ""
+				}
+				g := call.Call.StaticCallee()
+				if g == nil || len(g.Blocks) == 0 {
+					return false, ""
+				}
+				// which parameter of g receives the closure, and where does g call it
+				pi := -1
+				for i, a := range call.Call.Args {
+					if a == ssa.Value(mc) {
+						pi = i
+					}
+				}
+				if pi < 0 || pi >= len(g.Params) {
+					return false, ""
+				}
+				var site ssa.Instruction
+				for _, cs := range engine.Calls(g) {
+					if cs.Common().Value == ssa.Value(g.Params[pi]) && cs.Instr.Parent() == g {
+						if site != nil {
+							return false, "" // called more than once: not handled
+						}
+						site = cs.Instr
+					}
+				}
+				if site == nil {
+					return false, ""
+				}
+				ok2, why := serialisedBySyncRef(g, site, nil, name, acq, rel)
+				if !ok2 {
+					return false, why
+				}
+				// the id g locks is one of its parameters; the caller passes the id the closure uses
+				var acqCall *ssa.Call
+				for _, cs2 := range engine.Calls(g) {
+					if cs2.Common().StaticCallee() == acq && engine.InstrDominates(cs2.Instr, site) {
+						acqCall, _ = cs2.Instr.(*ssa.Call)
+					}
+				}
+				idParam := -1
+				for i, p := range g.Params {
+					if acqCall != nil && sameLoad(acqCall.Call.Args[1], p) {
+						idParam = i
+					}
+				}
+				if idParam < 0 {
+					return false, "the helper locks an id that is not its parameter"
+				}
+				passed := call.Call.Args[idParam]
+				// id used inside the closure: a free variable bound to the same value/cell the caller passes
+				same := false
+				inner := idInClosure
+				if els, ok := variadicElems(inner); ok && len(els) == 1 {
+					inner = els[0]
+				}
+				if u, ok := inner.(*ssa.UnOp); ok {
+					if fv, ok := u.X.(*ssa.FreeVar); ok {
+						for _, bnd := range engine.FreeVarBinding(fv) {
+							if pu, ok := passed.(*ssa.UnOp); ok && pu.X == bnd {
+								same = true
+							}
+						}
+					}
+				}
+				if fv, ok := inner.(*ssa.FreeVar); ok {
+					for _, bnd := range engine.FreeVarBinding(fv) {
+						if bnd == passed {
+							same = true
+						}
+					}
+				}
+				if !same {
+					return false, "the id locked by " + g.Name() + " is not the id the closure passes to the wrapped store"
+				}
+				return true, "inside " + g.Name() + ": " + why
+			}
+		}
+	}
+	return false, ""
 }
